@@ -83,7 +83,7 @@ HEADER = """    fn arm_compound(&mut self, lhs: &Box<Expr>, op: &Operation, rhs:
                 } else {
                     final(self).gh@.stores =~= seq![(l0, high_byte)] && final(self).gh@.ops =~= seq![(l0, operand_of(**rhs, high_byte), high_byte)]
                 } }), //@ C01,C15:compound-updates-every-byte-of-the-destination-once
-            res is Ok ==> forall|i: int| 2 <= i < final(self).gh@.visits.len() ==> (#[trigger] final(self).gh@.visits[i]).second_time && final(self).gh@.visits[i].high, //@ C01,C18:compound-second-visit-is-second-time
+            res is Ok ==> forall|i: int| 2 <= i < final(self).gh@.visits.len() ==> (#[trigger] final(self).gh@.visits[i]).second_time && final(self).gh@.visits[i].high, //@ C01,C15,C18:compound-second-visit-is-second-time
     {
         %(arm)s
     }
